@@ -380,6 +380,18 @@ func fLastWins(xs []string) bool {
 	return found
 }
 
+func fGuardIdx(xs []string) {
+	at := -1
+	for i, x := range xs {
+		if x == "" {
+			at = i
+		}
+	}
+	if at >= 0 && at < len(xs)-1 {
+		xs[0], xs[len(xs)-1] = xs[len(xs)-1], xs[0]
+	}
+}
+
 type flagsA struct{ Timeout, Temporary bool }
 
 type flagsB struct{ Temporary, Timeout bool }
@@ -469,6 +481,6 @@ func LintSelfTest() (map[string]bool, error) {
 }
 
 // SelfTestKinds lists the lint kinds that must fire in the self-test.
-var SelfTestKinds = []string{"lateguard", "afterput", "dupbranch", "selfsearch", "twinguard", "lazyinit", "shallow", "var", "memo", "recursion", "slice", "flag", "break", "swap", "guardfield", "retryonce", "guardvar", "rawname", "invariant", "mapstore", "selfcopy", "parity", "maporder", "swallow", "poolleak", "copyslip", "idxspace", "seqparity", "clonecond", "bypass", "aliasstore", "consumedarg", "wrongside", "posfield", "lastwins"}
+var SelfTestKinds = []string{"lateguard", "afterput", "dupbranch", "selfsearch", "twinguard", "lazyinit", "shallow", "var", "memo", "recursion", "slice", "flag", "break", "swap", "guardfield", "retryonce", "guardvar", "rawname", "invariant", "mapstore", "selfcopy", "parity", "maporder", "swallow", "poolleak", "copyslip", "idxspace", "seqparity", "clonecond", "bypass", "aliasstore", "consumedarg", "wrongside", "posfield", "lastwins", "guardidx"}
 
 func init() { sort.Strings(SelfTestKinds) }
